@@ -30,6 +30,7 @@ KeyTypePairs == IF Deep THEN {<<a, b>> : a \in {"P", "Q", "R"}, b \in {"P", "Q",
 \* no scenario verified by the other CA is accepted unless that CA's key signed the embedded
 \* certificate, and a forged or self-signed responder certificate never convinces the issuer
 ASSUME ScVerdict(Direct1) = "accept" /\ ScVerdict(Delegated) = "accept"
+ASSUME \A sc \in Scenarios : WellSigned(Resp(sc), sc.signer)
 ASSUME \A sc \in Scenarios : (sc.verifier = "O" /\ ScVerdict(sc) = "accept") => sc.embedded \in {"Ro", "Rf"}
 ASSUME \A sc \in Scenarios : (sc.verifier = "I" /\ sc.embedded \in {"Ro", "Rf", "Rs"}) => ScVerdict(sc) # "accept"
 
@@ -41,9 +42,13 @@ ASSUME \A sc \in Scenarios : (sc.embedded \in NameCollisionIds /\ sc.verifier = 
 
 \* every scenario is run through both entry points: ParseResponse(bytes, issuer) and
 \* ParseResponseForCert(bytes, certificate with the response's serial, issuer)
+\* and with the signature algorithm left to the key's default and requested explicitly: the
+\* verdict does not depend on it, the label (sigalg) and its truth (WellSigned) are checked
+SigAlgs == IF Deep THEN {"default", "sha1", "sha256", "sha384", "sha512"} ELSE {"default", "sha512"}
 AcceptCases ==
-  SetToSeq({[sc |-> sc, kt |-> kt, api |-> api, verdict |-> ScVerdict(sc)] :
-              sc \in Scenarios, kt \in KeyTypePairs, api \in {"ParseResponse", "ParseResponseForCert"}})
+  SetToSeq({[sc |-> sc, kt |-> kt, api |-> api, sigalg |-> a, verdict |-> ScVerdict(sc),
+             label |-> SigAlgOf([sigalg |-> a], SignerType(sc, kt))] :
+              sc \in Scenarios, kt \in KeyTypePairs, api \in {"ParseResponse", "ParseResponseForCert"}, a \in SigAlgs})
 
 (* responder ID forms, on responses from the harness' own encoder (CreateResponse only writes
    the by-name form): signer x embedded certificate x responder ID that points at the
@@ -69,13 +74,18 @@ TimeTriples == {<<86400, 172800, 3600>>, <<978393600, 978393601, 86399>>} \cup
 StatusReason == {<<"good", 0>>, <<"unknown", 0>>, <<"good", 1>>} \cup {<<"revoked", r>> : r \in Reasons}
 
 Templates ==
-  {[status |-> sr[1], reason |-> sr[2], serial |-> s, ihash |-> h,
+  {[status |-> sr[1], reason |-> sr[2], serial |-> s, ihash |-> h, sigalg |-> "default",
     thisUpdate |-> tt[1], nextUpdate |-> tt[2], revokedAt |-> tt[3], exts |-> xs] :
      sr \in StatusReason, s \in Serials, h \in Hashes, tt \in TimeTriples, xs \in ExtLists}
+  \cup
+  \* every signature algorithm the signing API accepts for a key type, on a small template set
+  {[status |-> st, reason |-> 1, serial |-> <<0, 128>>, ihash |-> h, sigalg |-> a,
+    thisUpdate |-> 86400, nextUpdate |-> 172800, revokedAt |-> 3600, exts |-> <<>>] :
+     st \in {"good", "revoked"}, h \in {"default", "sha512"}, a \in {"sha1", "sha256", "sha384", "sha512"}}
 
 RoundTripCases ==
   SetToSeq({[t |-> t, sc |-> sc, kt |-> kt, verdict |-> ScVerdict(sc),
-             want |-> Expected(t, SubjectOf(sc.responder), sc.embedded # "none")] :
+             want |-> Expected(t, SubjectOf(sc.responder), sc.embedded # "none", SignerType(sc, kt))] :
               t \in Templates, sc \in {Direct1, Delegated}, kt \in KeyTypePairs})
 
 ----------------------------------------------------------------------------
@@ -88,12 +98,12 @@ SwapIds == <<"R2", "Ro", "Rf", "Rs", "Rx", "I", "Rn", "Rm", "Rnx", "Rns", "Rms">
 
 \* the response that is tampered with is built from this template; where the verdict is
 \* "open" or "accept" an accepted response must still carry exactly these fields
-FaultTemplate == [status |-> "revoked", reason |-> 1, serial |-> <<1>> \o Rep(0, 7) \o <<1>>, ihash |-> "sha256",
+FaultTemplate == [status |-> "revoked", reason |-> 1, serial |-> <<1>> \o Rep(0, 7) \o <<1>>, ihash |-> "sha256", sigalg |-> "default",
                   thisUpdate |-> 86400, nextUpdate |-> 172800, revokedAt |-> 3600, exts |-> <<>>]
 
 FaultCase(sc, kt, f, name) ==
   [sc |-> sc, kt |-> kt, fault |-> name, t |-> FaultTemplate,
-   want |-> Expected(FaultTemplate, SubjectOf(sc.responder), sc.embedded # "none"),
+   want |-> Expected(FaultTemplate, SubjectOf(sc.responder), sc.embedded # "none", SignerType(sc, kt)),
    verdict |-> FaultVerdict(Resp(sc), f, KeyOfCert(sc.verifier))]
 
 FaultCasesFor(sc, kt) ==
